@@ -2,18 +2,8 @@
    up to the field's bit width. *)
 From Coq Require Import ZArith List Bool Lia.
 Import ListNotations.
-Require Import Base.Py Base.ZList Model.InfoBase Model.InfoSimple Gen.Gen_tables Proofs.C05_bits.
+Require Import Base.Py Base.ZList Model.InfoBase Model.InfoSimple Gen.Gen_tables Proofs.C05_bits Proofs.C05_tables.
 Open Scope Z_scope.
-
-(* ------------------------------------------------------------------ tables *)
-Theorem wavpack_table_matches_spec : list_diff gen_wavpack_rates spec_wavpack_rates = [].
-Proof. vm_compute. reflexivity. Qed.
-Theorem musepack_table_matches_spec : list_diff gen_musepack_rates spec_musepack_rates = [].
-Proof. vm_compute. reflexivity. Qed.
-Theorem optimfrog_table_matches_spec :
-  list_diff (map fst gen_optimfrog_bits) (map fst spec_optimfrog_bits) = [] /\
-  list_diff (map snd gen_optimfrog_bits) (map snd spec_optimfrog_bits) = [].
-Proof. split; vm_compute; reflexivity. Qed.
 
 (* ------------------------------------------------------------------ WavPack *)
 Theorem wavpack_header ck version total block_samples bytes_code mono misc_lo rate_idx misc_hi dsd crc :
@@ -48,6 +38,181 @@ Proof.
   remember (nth (Z.to_nat rate_idx) spec_wavpack_rates 0) as r0.
   assert (Hc : (if negb (mono =? 0) then 1 else 2) = (if mono =? 1 then 1 else 2)) by (destruct (mono =? 0) eqn:E1, (mono =? 1) eqn:E2; cbn; lia).
   rewrite Hc.
+  rewrite !(if_false (total =? 4294967295)) by lia.
+  rewrite (if_false ((total =? -1) || negb (0 =? 0))) by lia.
   destruct (dsd =? 1) eqn:Ed.
-  - rewrite (if_true (negb (dsd =? 0))) by lia.
-    guards. rewrite if_false by lia. reflexivity.
+  - rewrite !(if_true (negb (dsd =? 0))) by lia.
+    rewrite if_false by lia. reflexivity.
+  - rewrite !(if_false (negb (dsd =? 0))) by lia.
+    rewrite if_false by lia. rewrite Z.mul_1_r. reflexivity.
+Qed.
+
+(* unknown sampling-rate index 15 ("non-standard rate" in the format): the code has no table row *)
+Theorem wavpack_rate_index_15 ck version total block_samples bytes_code mono misc_lo misc_hi dsd crc rest :
+  0 <= ck < 4294967296 -> 0 <= version < 65536 -> 0 <= total < 4294967296 -> 0 <= block_samples < 4294967296 ->
+  0 <= bytes_code <= 3 -> 0 <= mono <= 1 -> 0 <= misc_lo < 1048576 -> 0 <= misc_hi < 16 -> 0 <= dsd <= 1 ->
+  0 <= crc < 4294967296 ->
+  decode_wavpack (build_wavpack_block ck version total 0 block_samples
+                    (wavpack_flags bytes_code mono misc_lo 15 misc_hi dsd) crc ++ rest) = Raise EIndex.
+Proof.
+  intros Hck Hv Ht Hbs Hbc Hm Hlo Hhi Hd Hcrc.
+  unfold decode_wavpack.
+  rewrite sub_at_0_app by reflexivity.
+  unfold build_wavpack_block, ascii_wvpk.
+  rewrite if_false by reflexivity.
+  remember (wavpack_flags bytes_code mono misc_lo 15 misc_hi dsd) as flags eqn:Ef.
+  assert (Hfl : 0 <= flags < 4294967296) by (unfold wavpack_flags in Ef; lia).
+  layout. decode_encode.
+  assert (Hri : (flags / 8388608) mod 16 = 15) by (unfold wavpack_flags in Ef; lia).
+  rewrite Hri. reflexivity.
+Qed.
+
+(* ------------------------------------------------------------------ DSF *)
+Theorem dsf_header total_size meta_ptr channel_type channels rate bits samples block_size data_size :
+  0 <= total_size < 18446744073709551616 -> 0 <= meta_ptr < 18446744073709551616 ->
+  0 <= channel_type < 4294967296 -> 0 <= channels < 4294967296 -> 1 <= rate < 4294967296 ->
+  0 <= bits < 4294967296 -> 0 <= samples < 18446744073709551616 -> 0 <= block_size < 4294967296 ->
+  12 <= data_size < 18446744073709551616 ->
+  forall rest,
+  decode_dsf (build_dsf total_size meta_ptr channel_type channels rate bits samples block_size data_size ++ rest) =
+  Ok [channels; rate; bits; rate * bits * channels; samples; rate].
+Proof.
+  intros H1 H2 H3 H4 H5 H6 H7 H8 H9 rest.
+  unfold decode_dsf, build_dsf, ascii_DSD_, ascii_fmt_, ascii_data.
+  layout. decode_encode.
+  repeat (rewrite if_false by reflexivity).
+  rewrite if_false by lia. rewrite if_false by lia. reflexivity.
+Qed.
+
+Theorem dsf_rate0 total_size meta_ptr channel_type channels bits samples block_size data_size rest :
+  0 <= total_size < 18446744073709551616 -> 0 <= meta_ptr < 18446744073709551616 ->
+  0 <= channel_type < 4294967296 -> 0 <= channels < 4294967296 ->
+  0 <= bits < 4294967296 -> 0 <= samples < 18446744073709551616 -> 0 <= block_size < 4294967296 ->
+  12 <= data_size < 18446744073709551616 ->
+  decode_dsf (build_dsf total_size meta_ptr channel_type channels 0 bits samples block_size data_size ++ rest) =
+  Raise EZeroDiv.
+Proof.
+  intros H1 H2 H3 H4 H6 H7 H8 H9.
+  unfold decode_dsf, build_dsf, ascii_DSD_, ascii_fmt_, ascii_data.
+  layout. decode_encode.
+  repeat (rewrite if_false by reflexivity).
+  rewrite if_false by lia. reflexivity.
+Qed.
+
+(* ------------------------------------------------------------------ TrueAudio *)
+Theorem tta_header format channels bits rate samples crc :
+  0 <= format < 65536 -> 0 <= channels < 65536 -> 0 <= bits < 65536 -> 0 <= rate < 4294967296 ->
+  0 <= samples < 4294967296 -> 0 <= crc < 4294967296 ->
+  forall rest,
+  decode_tta (build_tta format channels bits rate samples crc ++ rest) =
+  Ok (if rate =? 0 then [rate; 0; 1] else [rate; samples; rate]).
+Proof.
+  intros H1 H2 H3 H4 H5 H6 rest.
+  unfold decode_tta, build_tta, ascii_TTA.
+  layout. decode_encode.
+  rewrite if_false by reflexivity.
+  destruct (rate =? 0); reflexivity.
+Qed.
+
+(* ------------------------------------------------------------------ Monkey's Audio >= 3.98 *)
+Theorem ape_header version seek_bytes wav_bytes audio_bytes compression format_flags bpf ffb frames bits channels rate :
+  3980 <= version < 65536 -> 0 <= seek_bytes < 4294967296 -> 0 <= wav_bytes < 4294967296 ->
+  0 <= audio_bytes < 4294967296 -> 0 <= compression < 65536 -> 0 <= format_flags < 65536 ->
+  0 <= bpf < 4294967296 -> 0 <= ffb < 4294967296 -> 0 <= frames < 4294967296 ->
+  0 <= bits < 65536 -> 0 <= channels < 65536 -> 0 <= rate < 4294967296 ->
+  forall rest,
+  decode_ape (build_ape version seek_bytes wav_bytes audio_bytes compression format_flags bpf ffb frames bits channels rate ++ rest) =
+  Ok (if negb (rate =? 0) && (frames >? 0)
+      then [version; channels; rate; bits; (frames - 1) * bpf + ffb; rate]
+      else [version; channels; rate; bits; 0; 1]).
+Proof.
+  intros H1 H2 H3 H4 H5 H6 H7 H8 H9 H10 H11 H12 rest.
+  unfold decode_ape.
+  rewrite sub_at_0_app by reflexivity.
+  unfold build_ape, ascii_MAC_.
+  rewrite if_false by reflexivity.
+  layout. decode_encode.
+  rewrite if_true by lia.
+  destruct (negb (rate =? 0) && (frames >? 0)); reflexivity.
+Qed.
+
+(* ------------------------------------------------------------------ OptimFROG *)
+Theorem ofr_header data_size total sample_type channels rate encoder_id :
+  (data_size = 12 \/ 15 <= data_size < 4294967296) -> 0 <= total < 281474976710656 -> 0 <= sample_type <= 7 ->
+  1 <= channels <= 256 -> 0 <= rate < 4294967296 -> 0 <= encoder_id < 65536 ->
+  forall rest,
+  decode_ofr (build_ofr data_size total sample_type channels rate encoder_id ++ rest) =
+  Ok [channels; rate; 8 * (sample_type / 2 + 1);
+      (if rate =? 0 then 0 else total); (if rate =? 0 then 1 else channels * rate);
+      (if data_size >=? 15 then encoder_id / 16 + 4500 else -1)].
+Proof.
+  intros H1 H2 H3 H4 H5 H6 rest.
+  unfold decode_ofr.
+  rewrite sub_at_0_app by reflexivity.
+  unfold build_ofr, ascii_OFR_.
+  rewrite if_false by reflexivity.
+  layout. decode_encode.
+  rewrite if_false by lia.
+  replace gen_optimfrog_bits with spec_optimfrog_bits by reflexivity.
+  assert (Hb : match assoc_z sample_type spec_optimfrog_bits with Some b => b | None => -1 end = 8 * (sample_type / 2 + 1)).
+  { assert (In sample_type [0;1;2;3;4;5;6;7]) as Hin by (cbn [In]; lia).
+    cbn [In] in Hin. repeat (destruct Hin as [<-|Hin]; [vm_compute; reflexivity|]). contradiction. }
+  rewrite Hb.
+  assert (Ht : total mod 256 + 256 * ((total / 256) mod 256 + 256 * ((total / 256 / 256) mod 256 + 256 * ((total / 256 / 256 / 256) mod 256 + 256 * 0))) +
+               total / 256 / 256 / 256 / 256 * 4294967296 = total) by lia.
+  rewrite Ht.
+  replace (channels - 1 + 1) with channels by lia.
+  destruct (rate =? 0); cbn [negb]; reflexivity.
+Qed.
+
+Theorem ofr_bad_size data_size total sample_type channels rate encoder_id rest :
+  0 <= data_size < 15 -> data_size <> 12 -> 0 <= total < 281474976710656 -> 0 <= sample_type <= 7 ->
+  1 <= channels <= 256 -> 0 <= rate < 4294967296 -> 0 <= encoder_id < 65536 ->
+  decode_ofr (build_ofr data_size total sample_type channels rate encoder_id ++ rest) = Raise EMutagen.
+Proof.
+  intros H1 H1' H2 H3 H4 H5 H6.
+  unfold decode_ofr.
+  rewrite sub_at_0_app by reflexivity.
+  unfold build_ofr, ascii_OFR_.
+  rewrite if_false by reflexivity.
+  layout. decode_encode.
+  rewrite if_true by lia. reflexivity.
+Qed.
+
+(* ------------------------------------------------------------------ Musepack SV7 *)
+Theorem mpc7_header minor frames max_level rate_idx link profile max_band ms is_ tp tg ap ag tail :
+  0 <= minor < 16 -> 0 <= frames < 4294967296 -> 0 <= max_level < 65536 -> 0 <= rate_idx <= 3 -> 0 <= link <= 3 ->
+  0 <= profile < 16 -> 0 <= max_band < 64 -> 0 <= ms <= 1 -> 0 <= is_ <= 1 ->
+  0 <= tp < 65536 -> -32768 <= tg < 32768 -> 0 <= ap < 65536 -> -32768 <= ag < 32768 -> length tail = 12%nat ->
+  forall rest,
+  decode_mpc_sv467 (build_mpc7 minor frames (mpc7_flags max_level rate_idx link profile max_band ms is_) tp tg ap ag tail ++ rest) =
+  let rate := nth (Z.to_nat rate_idx) spec_musepack_rates 0 in
+  Ok [7; 2; rate; frames * 1152 - 576; rate; 0; tp; tg; ap; ag].
+Proof.
+  intros H1 H2 H3 H4 H5 H6 H7 H8 H9 H10 H11 H12 H13 Htail rest.
+  do 12 (destruct tail as [|? tail]; [discriminate|]). destruct tail; [|discriminate]. clear Htail.
+  unfold decode_mpc_sv467.
+  rewrite sub_at_0_app by reflexivity.
+  unfold build_mpc7, ascii_MPplus.
+  rewrite if_false by reflexivity. rewrite if_true by reflexivity.
+  remember (mpc7_flags max_level rate_idx link profile max_band ms is_) as flags eqn:Ef.
+  assert (Hfl : 0 <= flags < 4294967296) by (unfold mpc7_flags in Ef; lia).
+  assert (Htg : 0 <= of_signed 65536 tg < 65536) by (unfold of_signed; destruct (tg <? 0) eqn:E; lia).
+  assert (Hag : 0 <= of_signed 65536 ag < 65536) by (unfold of_signed; destruct (ag <? 0) eqn:E; lia).
+  layout. decode_encode.
+  assert (Hv : (7 + 16 * minor) mod 16 = 7) by lia. rewrite Hv.
+  rewrite if_false by lia.
+  assert (Hri : (flags / 65536) mod 4 = rate_idx) by (unfold mpc7_flags in Ef; lia). rewrite Hri.
+  replace gen_musepack_rates with spec_musepack_rates by reflexivity.
+  rewrite idx_in by (change (zlen spec_musepack_rates) with 4; lia).
+  cbv zeta.
+  assert (Hpos : 0 < nth (Z.to_nat rate_idx) spec_musepack_rates 0).
+  { assert (In rate_idx [0;1;2;3]) as Hin by (cbn [In]; lia).
+    cbn [In] in Hin. repeat (destruct Hin as [<-|Hin]; [vm_compute; reflexivity|]). contradiction. }
+  rewrite if_false by lia.
+  assert (Hs1 : to_signed 65536 (of_signed 65536 tg) = tg).
+  { unfold to_signed, of_signed. destruct (tg <? 0) eqn:E; [rewrite if_true by lia | rewrite if_false by lia]; lia. }
+  assert (Hs2 : to_signed 65536 (of_signed 65536 ag) = ag).
+  { unfold to_signed, of_signed. destruct (ag <? 0) eqn:E; [rewrite if_true by lia | rewrite if_false by lia]; lia. }
+  rewrite Hs1, Hs2. reflexivity.
+Qed.
